@@ -9,14 +9,17 @@ import (
 	"strconv"
 	"sync"
 	"testing"
+	"time"
 )
 
 // Writer writes ndjson events; Emit is safe for concurrent use and assigns seq under the lock.
 type Writer struct {
-	mu  sync.Mutex
-	f   *os.File
-	w   *bufio.Writer
-	seq int
+	mu      sync.Mutex
+	f       *os.File
+	w       *bufio.Writer
+	seq     int
+	holding bool
+	held    [][]byte
 }
 
 func OpenTrace(t testing.TB) *Writer {
@@ -42,6 +45,10 @@ func (w *Writer) Emit(ev map[string]any) {
 	}
 	// TLC's JSON reader has no null: a nil slice is an empty sequence
 	b = bytes.ReplaceAll(b, []byte(":null"), []byte(":[]"))
+	if w.holding {
+		w.held = append(w.held, b)
+		return
+	}
 	w.w.Write(b)
 	w.w.WriteByte('\n')
 }
@@ -95,4 +102,74 @@ func MustUnmarshal(t testing.TB, raw []byte, v any) {
 	if err := json.Unmarshal(raw, v); err != nil {
 		t.Fatalf("bad input %s: %v", raw, err)
 	}
+}
+
+// Jitter measures how badly this process is being starved of CPU: a goroutine sleeps 5 ms at a
+// time and records every oversleep of more than StarvedMs. A run of a real-time driver during
+// which such an episode happened cannot be judged against time bounds and is dropped / marked.
+type Jitter struct {
+	mu   sync.Mutex
+	bad  []time.Time
+	stop chan struct{}
+}
+
+const StarvedMs = 400
+
+func StartJitter() *Jitter {
+	j := &Jitter{stop: make(chan struct{})}
+	go func() {
+		for {
+			select {
+			case <-j.stop:
+				return
+			default:
+			}
+			t0 := time.Now()
+			time.Sleep(5 * time.Millisecond)
+			if time.Since(t0) > (StarvedMs+5)*time.Millisecond {
+				j.mu.Lock()
+				j.bad = append(j.bad, t0)
+				j.mu.Unlock()
+			}
+		}
+	}()
+	return j
+}
+
+// StarvedSince reports whether the process was starved at some moment after t0.
+func (j *Jitter) StarvedSince(t0 time.Time) bool {
+	j.mu.Lock()
+	defer j.mu.Unlock()
+	for _, b := range j.bad {
+		if b.After(t0.Add(-StarvedMs * time.Millisecond)) {
+			return true
+		}
+	}
+	return false
+}
+
+func (j *Jitter) Stop() { close(j.stop) }
+
+// Begin / Commit / Abort: events emitted between Begin and Commit are held back and written by
+// Commit, or dropped by Abort (a run that turned out not to be judgeable).
+func (w *Writer) Begin() {
+	w.mu.Lock()
+	defer w.mu.Unlock()
+	w.holding, w.held = true, nil
+}
+
+func (w *Writer) Commit() {
+	w.mu.Lock()
+	defer w.mu.Unlock()
+	for _, b := range w.held {
+		w.w.Write(b)
+		w.w.WriteByte('\n')
+	}
+	w.holding, w.held = false, nil
+}
+
+func (w *Writer) Abort() {
+	w.mu.Lock()
+	defer w.mu.Unlock()
+	w.holding, w.held = false, nil
 }
